@@ -184,6 +184,7 @@ class FakeScheduler:
         self.logical: dict[str, _Logical] = {}
         self.by_id: dict[str, tuple[_Logical, int]] = {}  # jobid -> (logical, attempt index)
         self.next_id = 4100
+        self.harness_error = None
         self.in_call = 0
         self.time_in_calls = 0.0  # wall time spent answering (mostly: running payloads)
         self.ncalls = 0
@@ -207,6 +208,12 @@ class FakeScheduler:
             if fn is None:
                 raise HarnessError(f"fake {self.kind} scheduler: unexpected command {cmd[:4]}")
             rc, out, err = fn(cmd[1:])
+        except HarnessError as e:
+            self.harness_error = e  # pydra may swallow it as a job error: re-raised by the caller
+            raise
+        except Exception as e:  # a bug in the scripted scheduler must not pass for pydra's
+            self.harness_error = HarnessError(f"scripted scheduler crashed on {cmd[:4]}: {e!r}")
+            raise self.harness_error from e
         finally:
             self.in_call -= 1
             self.time_in_calls += time.monotonic() - t_in
